@@ -1,4 +1,24 @@
 import SaramaVerif.Model.BrokerProd
+/-
+  C02, lemma L2 of DESIGN.md Appendix D: "a broker worker bounces in order and goes quiet".
+
+  Everything here is about `Model.BrokerProd.step`, the transducer model of one broker worker of the non-idempotent
+  producer, and holds for EVERY input sequence (tokens, hand-overs to the bridge, responses with any verdicts, any
+  map-iteration orders, any wouldOverflow answers), from the worker's initial state:
+
+    bp_at_most_one_set_in_flight   at most one produce set between hand-over and response handling
+    bp_partition_fifo              per partition: data tokens out (success / failure / bounce) ++ tokens inside = arrivals
+    bp_conservation                per (id, partition): received = in set + in buffer + held + left; fins are never held
+    bp_quiet_after_failure         from a failing response until the partition's fin / syn: nothing of it is added
+    bp_quiet_while_refused         the same from any reachable state that refuses the partition
+    bp_bounces_in_order            bounce sequence of the partition = set part, buffer part, held message, later arrivals
+    bp_bounce_order_preserving     bounced data tokens of a partition are a subsequence of its arrivals
+
+  Tie to the Go code: Driver/ProducerTrace.lean (`BPW`) replays every broker worker of every scenario through the
+  same `step` and compares its actions with the hook events of the real code.
+-/
+set_option linter.unusedSimpArgs false
+set_option linter.unnecessarySimpa false
 namespace Props.C02bp
 open Model.BrokerProd
 
@@ -57,5 +77,1145 @@ theorem onPart_arrange_all (p : Int) (o : List Int) (l : List Tok) :
   · simp [h]
   · have := mem_parts_of_onPart p l h
     simp [this]
+
+/-! ### views of action lists -/
+
+/-- data tokens of partition `p` leaving the worker (success, failure, bounce), in order -/
+def outD (p : Int) : Action → Option Int
+  | .requeue i q _ false => if q = p then some i else none
+  | .expire i q false => if q = p then some i else none
+  | .succ i q => if q = p then some i else none
+  | .fail i q => if q = p then some i else none
+  | _ => none
+
+def outData (p : Int) (as : List Action) : List Int := as.filterMap (outD p)
+
+/-- every token of partition `p` handed to retryMessage (re-queued, or failed because the budget is spent), fin
+    chasers included, in order -/
+def bnc (p : Int) : Action → Option Int
+  | .requeue i q _ _ => if q = p then some i else none
+  | .expire i q _ => if q = p then some i else none
+  | _ => none
+
+def bounces (p : Int) (as : List Action) : List Int := as.filterMap (bnc p)
+
+/-- tokens of partition `p` appended to the buffer -/
+def addD (p : Int) : Action → Option Int
+  | .add i q => if q = p then some i else none
+  | _ => none
+
+def adds (p : Int) (as : List Action) : List Int := as.filterMap (addD p)
+
+theorem outData_append (p : Int) (a b : List Action) : outData p (a ++ b) = outData p a ++ outData p b := by
+  simp [outData, List.filterMap_append]
+theorem bounces_append (p : Int) (a b : List Action) : bounces p (a ++ b) = bounces p a ++ bounces p b := by
+  simp [bounces, List.filterMap_append]
+theorem adds_append (p : Int) (a b : List Action) : adds p (a ++ b) = adds p a ++ adds p b := by
+  simp [adds, List.filterMap_append]
+
+theorem isFin_of_data (t : Tok) (h : t.kind = .data) : t.isFin = false := by simp [Tok.isFin, h]
+
+theorem outData_retry (max : Nat) (p : Int) (ts : List Tok) (h : ∀ t ∈ ts, t.kind = .data) :
+    outData p (retryMsgs max ts) = ids (onPart p ts) := by
+  induction ts with
+  | nil => rfl
+  | cons t ts ih =>
+    have ht := isFin_of_data t (h t (by simp))
+    have := ih (fun x hx => h x (by simp [hx]))
+    simp only [outData, retryMsgs, ids, onPart, List.map_cons, List.filterMap_cons, List.filter_cons] at *
+    by_cases h1 : t.retries ≥ max <;> by_cases h2 : t.part = p <;> simp [retryMsg, h1, h2, ht, outD, this]
+
+theorem bounces_retry (max : Nat) (p : Int) (ts : List Tok) :
+    bounces p (retryMsgs max ts) = ids (onPart p ts) := by
+  induction ts with
+  | nil => rfl
+  | cons t ts ih =>
+    simp only [bounces, retryMsgs, ids, onPart, List.map_cons, List.filterMap_cons, List.filter_cons] at *
+    by_cases h1 : t.retries ≥ max <;> by_cases h2 : t.part = p <;> simp [retryMsg, h1, h2, bnc, ih]
+
+theorem adds_retry (max : Nat) (p : Int) (ts : List Tok) : adds p (retryMsgs max ts) = [] := by
+  induction ts with
+  | nil => rfl
+  | cons t ts ih =>
+    simp only [adds, retryMsgs, List.map_cons, List.filterMap_cons] at *
+    by_cases h1 : t.retries ≥ max <;> simp [retryMsg, h1, addD, ih]
+
+theorem outData_succ (p : Int) (ts : List Tok) :
+    outData p (ts.map (fun t => Action.succ t.id t.part)) = ids (onPart p ts) := by
+  induction ts with
+  | nil => rfl
+  | cons t ts ih =>
+    simp only [outData, ids, onPart, List.map_cons, List.filterMap_cons, List.filter_cons] at *
+    by_cases h2 : t.part = p <;> simp [h2, outD, ih]
+
+theorem outData_fail (p : Int) (ts : List Tok) :
+    outData p (ts.map (fun t => Action.fail t.id t.part)) = ids (onPart p ts) := by
+  induction ts with
+  | nil => rfl
+  | cons t ts ih =>
+    simp only [outData, ids, onPart, List.map_cons, List.filterMap_cons, List.filter_cons] at *
+    by_cases h2 : t.part = p <;> simp [h2, outD, ih]
+
+theorem bounces_succ (p : Int) (ts : List Tok) : bounces p (ts.map (fun t => Action.succ t.id t.part)) = [] := by
+  induction ts with
+  | nil => rfl
+  | cons t ts ih => simpa [bounces, bnc] using ih
+theorem bounces_fail (p : Int) (ts : List Tok) : bounces p (ts.map (fun t => Action.fail t.id t.part)) = [] := by
+  induction ts with
+  | nil => rfl
+  | cons t ts ih => simpa [bounces, bnc] using ih
+theorem adds_succ (p : Int) (ts : List Tok) : adds p (ts.map (fun t => Action.succ t.id t.part)) = [] := by
+  induction ts with
+  | nil => rfl
+  | cons t ts ih => simpa [adds, addD] using ih
+theorem adds_fail (p : Int) (ts : List Tok) : adds p (ts.map (fun t => Action.fail t.id t.part)) = [] := by
+  induction ts with
+  | nil => rfl
+  | cons t ts ih => simpa [adds, addD] using ih
+
+/-- a partition whose verdict leaves its messages to the second pass of handleSuccess -/
+def stays (max : Nat) (vd : Verdict) : Prop := 0 < max ∧ vd = .retriable
+
+instance (max : Nat) (vd : Verdict) : Decidable (stays max vd) := by unfold stays; infer_instance
+
+theorem outData_verdictActs (max : Nat) (p : Int) (vd : Verdict) (ts : List Tok) :
+    outData p (verdictActs max vd ts) = if stays max vd then [] else ids (onPart p ts) := by
+  unfold verdictActs stays
+  by_cases he : ts.isEmpty
+  · have : ts = [] := by simpa using he
+    subst this; simp [outData, ids, onPart]
+  · simp only [he, Bool.false_eq_true, ↓reduceIte]
+    cases vd <;> by_cases hm : max = 0 <;>
+      simp [hm, outData_append, outData_succ, outData_fail, Nat.pos_iff_ne_zero] <;>
+      simp [outData, outD, outData_fail] <;> exact outData_fail p ts
+
+theorem bounces_verdictActs (max : Nat) (p : Int) (vd : Verdict) (ts : List Tok) :
+    bounces p (verdictActs max vd ts) = [] := by
+  unfold verdictActs
+  by_cases he : ts.isEmpty
+  · simp [he, bounces]
+  · simp only [he, Bool.false_eq_true, ↓reduceIte]
+    cases vd <;> by_cases hm : max = 0 <;>
+      simp [hm, bounces_append, bounces_succ, bounces_fail] <;>
+      simp [bounces, bnc] <;> exact bounces_fail p ts
+
+theorem adds_verdictActs (max : Nat) (p : Int) (vd : Verdict) (ts : List Tok) :
+    adds p (verdictActs max vd ts) = [] := by
+  unfold verdictActs
+  by_cases he : ts.isEmpty
+  · simp [he, adds]
+  · simp only [he, Bool.false_eq_true, ↓reduceIte]
+    cases vd <;> by_cases hm : max = 0 <;>
+      simp [hm, adds_append, adds_succ, adds_fail] <;>
+      simp [adds, addD] <;> exact adds_fail p ts
+
+/-! ### the two passes of handleSuccess, seen from one partition -/
+
+theorem outData_loop1 (max : Nat) (v : Int → Verdict) (p : Int) (ps : List Int) (rem : List Tok) :
+    outData p (loop1 max v ps rem) = if p ∈ ps ∧ ¬ stays max (v p) then ids (onPart p rem) else [] := by
+  induction ps generalizing rem with
+  | nil => simp [loop1, outData]
+  | cons q ps ih =>
+    simp only [loop1, outData_append, outData_verdictActs, ih, onPart_onPart, onPart_offPart, List.mem_cons]
+    by_cases h : p = q
+    · subst h
+      by_cases hs : stays max (v p) <;> simp [hs, ids]
+    · by_cases hs : stays max (v q) <;> simp [hs, h, ids]
+
+theorem bounces_loop1 (max : Nat) (v : Int → Verdict) (p : Int) (ps : List Int) (rem : List Tok) :
+    bounces p (loop1 max v ps rem) = [] := by
+  induction ps generalizing rem with
+  | nil => simp [loop1, bounces]
+  | cons q ps ih => simp [loop1, bounces_append, bounces_verdictActs, ih]
+
+theorem adds_loop1 (max : Nat) (v : Int → Verdict) (p : Int) (ps : List Int) (rem : List Tok) :
+    adds p (loop1 max v ps rem) = [] := by
+  induction ps generalizing rem with
+  | nil => simp [loop1, adds]
+  | cons q ps ih => simp [loop1, adds_append, adds_verdictActs, ih]
+
+/-- partition `p` is bounced by the second pass -/
+def hit (v : Int → Verdict) (p : Int) (ps : List Int) (rem : List Tok) : Prop :=
+  p ∈ ps ∧ onPart p rem ≠ [] ∧ v p = .retriable
+
+instance (v : Int → Verdict) (p : Int) (ps : List Int) (rem : List Tok) : Decidable (hit v p ps rem) := by
+  unfold hit; infer_instance
+
+theorem hit_cons_self_skip (v : Int → Verdict) (p : Int) (ps : List Int) (rem : List Tok)
+    (g : (onPart p rem).isEmpty = true ∨ v p ≠ .retriable) :
+    ¬ hit v p (p :: ps) rem ∧ ¬ hit v p ps (offPart p rem) := by
+  constructor
+  · rintro ⟨_, h2, h3⟩
+    rcases g with g | g
+    · exact h2 (by simpa using g)
+    · exact g h3
+  · rintro ⟨_, h2, _⟩
+    exact h2 (by simp [onPart_offPart])
+
+theorem hit_cons_other (v : Int → Verdict) (p q : Int) (ps : List Int) (rem : List Tok) (h : p ≠ q) :
+    hit v p (q :: ps) rem ↔ hit v p ps (offPart q rem) := by
+  simp [hit, onPart_offPart, h]
+
+/-- the second pass: fields it does not touch -/
+theorem loop2_frame (max : Nat) (v : Int → Verdict) (ps : List Int) (rem : List Tok) (s : St) :
+    (loop2 max v ps rem s).1.sets = s.sets ∧ (loop2 max v ps rem s).1.wait = s.wait ∧
+    (loop2 max v ps rem s).1.closing = s.closing ∧ (loop2 max v ps rem s).1.stale = s.stale ∧
+    (∀ t ∈ (loop2 max v ps rem s).1.buffer, t ∈ s.buffer) := by
+  induction ps generalizing rem s with
+  | nil => simp [loop2]
+  | cons q ps ih =>
+    unfold loop2
+    by_cases g : (onPart q rem).isEmpty = true ∨ v q ≠ .retriable
+    · simp only [g, ↓reduceIte]; exact ih _ _
+    · simp only [g, ↓reduceIte]
+      obtain ⟨a, b, c, d, e⟩ := ih (offPart q rem) { s with cr := setCr s.cr q true, buffer := offPart q s.buffer }
+      refine ⟨a, b, c, d, ?_⟩
+      intro t ht
+      have := e t ht
+      simp only [offPart, List.mem_filter] at this
+      exact this.1
+
+theorem bounces_drop (p q : Int) (l : List Action) : bounces p (Action.drop q :: l) = bounces p l := by
+  simp only [bounces]; rw [List.filterMap_cons]; rfl
+theorem adds_drop (p q : Int) (l : List Action) : adds p (Action.drop q :: l) = adds p l := by
+  simp only [adds]; rw [List.filterMap_cons]; rfl
+theorem outData_drop (p q : Int) (l : List Action) : outData p (Action.drop q :: l) = outData p l := by
+  simp only [outData]; rw [List.filterMap_cons]; rfl
+
+/-- the second pass, seen from partition `p` -/
+theorem loop2_part (max : Nat) (v : Int → Verdict) (p : Int) (ps : List Int) (rem : List Tok) (s : St) :
+    onPart p (loop2 max v ps rem s).1.buffer = (if hit v p ps rem then [] else onPart p s.buffer) ∧
+    (loop2 max v ps rem s).1.cr p = (s.cr p || decide (hit v p ps rem)) ∧
+    bounces p (loop2 max v ps rem s).2 = (if hit v p ps rem then ids (onPart p rem) ++ ids (onPart p s.buffer) else []) ∧
+    adds p (loop2 max v ps rem s).2 = [] := by
+  induction ps generalizing rem s with
+  | nil => simp [loop2, hit, bounces, adds]
+  | cons q ps ih =>
+    unfold loop2
+    by_cases g : (onPart q rem).isEmpty = true ∨ v q ≠ .retriable
+    · simp only [g, ↓reduceIte]
+      obtain ⟨i1, i2, i3, i4⟩ := ih (offPart q rem) s
+      by_cases h : p = q
+      · subst h
+        obtain ⟨n1, n2⟩ := hit_cons_self_skip v p ps rem g
+        simp only [n1, n2, ↓reduceIte, decide_false, Bool.or_false] at *
+        exact ⟨i1, i2, i3, i4⟩
+      · have e := hit_cons_other v p q ps rem h
+        simp only [e]
+        simp only [onPart_offPart, h, ↓reduceIte] at i3
+        exact ⟨i1, i2, i3, i4⟩
+    · simp only [g, ↓reduceIte]
+      obtain ⟨i1, i2, i3, i4⟩ := ih (offPart q rem) { s with cr := setCr s.cr q true, buffer := offPart q s.buffer }
+      have g1 : onPart q rem ≠ [] := by
+        intro hh; apply g; left; simp [hh]
+      have g2 : v q = .retriable := by
+        by_cases hv : v q = .retriable
+        · exact hv
+        · exact absurd (Or.inr hv) g
+      simp only [bounces_append, bounces_drop, bounces_retry, adds_append, adds_drop, adds_retry, onPart_onPart,
+        onPart_offPart, i1, i2, i3, i4, List.append_nil]
+      by_cases h : p = q
+      · subst h
+        have n2 : ¬ hit v p ps (offPart p rem) := by
+          rintro ⟨_, h2, _⟩; exact h2 (by simp [onPart_offPart])
+        have n1 : hit v p (p :: ps) rem := ⟨by simp, g1, g2⟩
+        simp [n1, n2, setCr]
+      · have e := hit_cons_other v p q ps rem h
+        simp only [e]
+        by_cases hh : hit v p ps (offPart q rem) <;> simp [h, hh, setCr, ids]
+
+theorem mem_onPart {p : Int} {l : List Tok} {t : Tok} (h : t ∈ onPart p l) : t ∈ l := by
+  simp only [onPart, List.mem_filter] at h; exact h.1
+theorem mem_offPart {p : Int} {l : List Tok} {t : Tok} (h : t ∈ offPart p l) : t ∈ l := by
+  simp only [offPart, List.mem_filter] at h; exact h.1
+
+theorem outData_loop2 (max : Nat) (v : Int → Verdict) (p : Int) (ps : List Int) (rem : List Tok) (s : St)
+    (hr : ∀ t ∈ rem, t.kind = .data) (hb : ∀ t ∈ s.buffer, t.kind = .data) :
+    outData p (loop2 max v ps rem s).2 = (if hit v p ps rem then ids (onPart p rem) ++ ids (onPart p s.buffer) else []) := by
+  induction ps generalizing rem s with
+  | nil => simp [loop2, hit, outData]
+  | cons q ps ih =>
+    unfold loop2
+    by_cases g : (onPart q rem).isEmpty = true ∨ v q ≠ .retriable
+    · simp only [g, ↓reduceIte]
+      have i3 := ih (offPart q rem) s (fun t ht => hr t (mem_offPart ht)) hb
+      by_cases h : p = q
+      · subst h
+        obtain ⟨n1, n2⟩ := hit_cons_self_skip v p ps rem g
+        simp only [n1, n2, ↓reduceIte] at *
+        exact i3
+      · have e := hit_cons_other v p q ps rem h
+        simp only [e]
+        simp only [onPart_offPart, h, ↓reduceIte] at i3
+        exact i3
+    · simp only [g, ↓reduceIte]
+      have i3 := ih (offPart q rem) { s with cr := setCr s.cr q true, buffer := offPart q s.buffer }
+        (fun t ht => hr t (mem_offPart ht)) (fun t ht => hb t (mem_offPart ht))
+      have g1 : onPart q rem ≠ [] := by
+        intro hh; apply g; left; simp [hh]
+      have g2 : v q = .retriable := by
+        by_cases hv : v q = .retriable
+        · exact hv
+        · exact absurd (Or.inr hv) g
+      rw [outData_append, outData_append, outData_drop,
+        outData_retry max p _ (fun t ht => hr t (mem_onPart ht)),
+        outData_retry max p _ (fun t ht => hb t (mem_onPart ht)), i3]
+      simp only [onPart_onPart, onPart_offPart]
+      by_cases h : p = q
+      · subst h
+        have n2 : ¬ hit v p ps (offPart p rem) := by
+          rintro ⟨_, h2, _⟩; exact h2 (by simp [onPart_offPart])
+        have n1 : hit v p (p :: ps) rem := ⟨by simp, g1, g2⟩
+        simp [n1, n2]
+      · have e := hit_cons_other v p q ps rem h
+        simp only [e]
+        by_cases hh : hit v p ps (offPart q rem) <;> simp [h, hh, ids]
+
+/-! ### handleResponse for one set -/
+
+theorem hit_all (v : Int → Verdict) (p : Int) (o : List Int) (sent : List Tok) :
+    hit v p (o ++ partsOf sent) sent ↔ onPart p sent ≠ [] ∧ v p = .retriable := by
+  unfold hit
+  constructor
+  · rintro ⟨_, a, b⟩; exact ⟨a, b⟩
+  · rintro ⟨a, b⟩; exact ⟨by simp [mem_parts_of_onPart p sent a], a, b⟩
+
+theorem retryTopics_iff (max : Nat) (v : Int → Verdict) (sent : List Tok) :
+    retryTopics max v sent = true ↔ 0 < max ∧ ∃ t ∈ sent, v t.part = .retriable := by
+  simp [retryTopics]
+
+theorem exists_of_onPart_ne {p : Int} {l : List Tok} (h : onPart p l ≠ []) : ∃ t ∈ l, t.part = p := by
+  cases hl : onPart p l with
+  | nil => exact absurd hl h
+  | cons t ts =>
+    have : t ∈ onPart p l := by rw [hl]; simp
+    simp only [onPart, List.mem_filter, beq_iff_eq] at this
+    exact ⟨t, this.1, this.2⟩
+
+/-- the response fails partition `p`: its messages are to be retried -/
+def failsFor (max : Nat) (p : Int) (sent : List Tok) : Resp → Prop
+  | .verdicts v _ _ => 0 < max ∧ v p = .retriable ∧ onPart p sent ≠ []
+  | .encErr _ => False
+  | .connErr _ _ => True
+
+instance (max : Nat) (p : Int) (sent : List Tok) (r : Resp) : Decidable (failsFor max p sent r) := by
+  cases r <;> unfold failsFor <;> infer_instance
+
+theorem handle_frame (max : Nat) (s : St) (sent : List Tok) (r : Resp) :
+    (handle max s sent r).1.sets = s.sets ∧ (handle max s sent r).1.wait = s.wait ∧
+    (∀ t ∈ (handle max s sent r).1.buffer, t ∈ s.buffer) := by
+  cases r with
+  | verdicts v o1 o2 =>
+    unfold handle
+    by_cases h : retryTopics max v sent = true
+    · simp only [h, ↓reduceIte]
+      obtain ⟨a, b, _, _, e⟩ := loop2_frame max v (o2 ++ partsOf sent) sent s
+      exact ⟨a, b, e⟩
+    · simp [h]
+  | encErr o => simp [handle]
+  | connErr o1 o2 => simp [handle]
+
+/-- per partition: what leaves, followed by what stays in the buffer, is the set followed by the old buffer -/
+theorem handle_fifo (max : Nat) (s : St) (sent : List Tok) (r : Resp) (p : Int)
+    (hd1 : ∀ t ∈ sent, t.kind = .data) (hd2 : ∀ t ∈ s.buffer, t.kind = .data) :
+    outData p (handle max s sent r).2 ++ ids (onPart p (handle max s sent r).1.buffer) =
+      ids (onPart p sent) ++ ids (onPart p s.buffer) := by
+  cases r with
+  | verdicts v o1 o2 =>
+    unfold handle
+    by_cases h : retryTopics max v sent = true
+    · simp only [h, ↓reduceIte]
+      obtain ⟨hm, _⟩ := (retryTopics_iff max v sent).1 h
+      obtain ⟨b1, _, _, _⟩ := loop2_part max v p (o2 ++ partsOf sent) sent s
+      rw [outData_append, outData_loop1, outData_loop2 max v p _ sent s hd1 hd2, b1]
+      by_cases he : onPart p sent = []
+      · have nh : ¬ hit v p (o2 ++ partsOf sent) sent := by rw [hit_all]; exact fun x => x.1 he
+        simp [he, nh, ids]
+      · have hp : p ∈ o1 ++ partsOf sent := by simp [mem_parts_of_onPart p sent he]
+        by_cases hv : v p = .retriable
+        · have hh : hit v p (o2 ++ partsOf sent) sent := (hit_all v p o2 sent).2 ⟨he, hv⟩
+          have st : stays max (v p) := ⟨hm, hv⟩
+          simp [hh, st, hp, ids]
+        · have nh : ¬ hit v p (o2 ++ partsOf sent) sent := by rw [hit_all]; exact fun x => hv x.2
+          have st : ¬ stays max (v p) := fun x => hv x.2
+          simp [nh, st, hp, ids]
+    · simp only [h, Bool.false_eq_true, ↓reduceIte]
+      rw [outData_loop1]
+      by_cases he : onPart p sent = []
+      · simp [he, ids]
+      · have hp : p ∈ o1 ++ partsOf sent := by simp [mem_parts_of_onPart p sent he]
+        have st : ¬ stays max (v p) := by
+          rintro ⟨hm, hv⟩
+          obtain ⟨t, ht, htp⟩ := exists_of_onPart_ne he
+          exact h ((retryTopics_iff max v sent).2 ⟨hm, t, ht, by rw [htp]; exact hv⟩)
+        simp [st, hp]
+  | encErr o =>
+    simp only [handle]
+    rw [show (List.map (fun t => Action.fail t.id t.part) (arrange (o ++ partsOf sent) sent)) =
+      (arrange (o ++ partsOf sent) sent).map (fun t => Action.fail t.id t.part) from rfl, outData_fail, onPart_arrange_all]
+  | connErr o1 o2 =>
+    simp only [handle]
+    have a1 : ∀ t ∈ arrange (o1 ++ partsOf sent) sent, t.kind = .data := by
+      intro t ht
+      have : t ∈ onPart t.part (arrange (o1 ++ partsOf sent) sent) := by simp [onPart, ht]
+      rw [onPart_arrange_all] at this
+      exact hd1 t (mem_onPart this)
+    have a2 : ∀ t ∈ arrange (o2 ++ partsOf s.buffer) s.buffer, t.kind = .data := by
+      intro t ht
+      have : t ∈ onPart t.part (arrange (o2 ++ partsOf s.buffer) s.buffer) := by simp [onPart, ht]
+      rw [onPart_arrange_all] at this
+      exact hd2 t (mem_onPart this)
+    have : outData p (Action.closing :: Action.abandon :: retryMsgs max (arrange (o1 ++ partsOf sent) sent) ++
+        retryMsgs max (arrange (o2 ++ partsOf s.buffer) s.buffer)) =
+        outData p (retryMsgs max (arrange (o1 ++ partsOf sent) sent)) ++
+        outData p (retryMsgs max (arrange (o2 ++ partsOf s.buffer) s.buffer)) := by
+      simp [outData, outD, List.filterMap_cons, List.filterMap_append]
+    rw [this, outData_retry max p _ a1, outData_retry max p _ a2, onPart_arrange_all, onPart_arrange_all]
+    simp [onPart, ids]
+
+theorem failsFor_verdicts_iff (max : Nat) (v : Int → Verdict) (o1 o2 o : List Int) (p : Int) (sent : List Tok) :
+    failsFor max p sent (.verdicts v o1 o2) ↔ (retryTopics max v sent = true ∧ hit v p (o ++ partsOf sent) sent) := by
+  rw [hit_all, retryTopics_iff]
+  unfold failsFor
+  constructor
+  · rintro ⟨a, b, c⟩
+    obtain ⟨t, ht, htp⟩ := exists_of_onPart_ne c
+    exact ⟨⟨a, t, ht, by rw [htp]; exact b⟩, c, b⟩
+  · rintro ⟨⟨a, _⟩, c, b⟩; exact ⟨a, b, c⟩
+
+/-- which partitions the worker refuses afterwards, what it bounces, and that it adds nothing -/
+theorem handle_needs (max : Nat) (s : St) (sent : List Tok) (r : Resp) (p : Int) :
+    (needsRetry (handle max s sent r).1 p = (needsRetry s p || decide (failsFor max p sent r))) ∧
+    (failsFor max p sent r → onPart p (handle max s sent r).1.buffer = []) ∧
+    bounces p (handle max s sent r).2 =
+      (if failsFor max p sent r then ids (onPart p sent) ++ ids (onPart p s.buffer) else []) ∧
+    adds p (handle max s sent r).2 = [] := by
+  cases r with
+  | verdicts v o1 o2 =>
+    have fe := failsFor_verdicts_iff max v o1 o2 o2 p sent
+    unfold handle
+    by_cases h : retryTopics max v sent = true
+    · simp only [h, ↓reduceIte, true_and] at fe ⊢
+      obtain ⟨b1, b2, b3, b4⟩ := loop2_part max v p (o2 ++ partsOf sent) sent s
+      obtain ⟨_, _, c, _, _⟩ := loop2_frame max v (o2 ++ partsOf sent) sent s
+      refine ⟨?_, ?_, ?_, ?_⟩
+      · simp only [needsRetry, c, b2, Bool.or_assoc]
+        congr 2
+        exact decide_eq_decide.2 fe.symm
+      · intro hf; rw [b1]; simp [fe.1 hf]
+      · rw [bounces_append, bounces_loop1, b3]
+        by_cases hh : hit v p (o2 ++ partsOf sent) sent
+        · simp [hh, fe.2 hh]
+        · have : ¬ failsFor max p sent (.verdicts v o1 o2) := fun x => hh (fe.1 x)
+          simp [hh, this]
+      · rw [adds_append, adds_loop1, b4]; rfl
+    · have nf : ¬ failsFor max p sent (.verdicts v o1 o2) := fun x => h (fe.1 x).1
+      simp only [h, Bool.false_eq_true, ↓reduceIte, nf, decide_false, Bool.or_false, false_implies,
+        bounces_loop1, adds_loop1, and_self]
+  | encErr o =>
+    simp only [handle, failsFor, false_implies, ↓reduceIte, true_and]
+    refine ⟨?_, bounces_fail p _, adds_fail p _⟩
+    rw [decide_eq_false (fun h => h)]; simp
+  | connErr o1 o2 =>
+    simp only [handle, failsFor, ↓reduceIte, true_implies]
+    refine ⟨by rw [decide_eq_true trivial]; simp [needsRetry], by simp [onPart], ?_, ?_⟩
+    · have : bounces p (Action.closing :: Action.abandon :: retryMsgs max (arrange (o1 ++ partsOf sent) sent) ++
+          retryMsgs max (arrange (o2 ++ partsOf s.buffer) s.buffer)) =
+          bounces p (retryMsgs max (arrange (o1 ++ partsOf sent) sent)) ++
+          bounces p (retryMsgs max (arrange (o2 ++ partsOf s.buffer) s.buffer)) := by
+        simp [bounces, bnc, List.filterMap_cons, List.filterMap_append]
+      rw [this, bounces_retry, bounces_retry, onPart_arrange_all, onPart_arrange_all]
+    · have : adds p (Action.closing :: Action.abandon :: retryMsgs max (arrange (o1 ++ partsOf sent) sent) ++
+          retryMsgs max (arrange (o2 ++ partsOf s.buffer) s.buffer)) =
+          adds p (retryMsgs max (arrange (o1 ++ partsOf sent) sent)) ++
+          adds p (retryMsgs max (arrange (o2 ++ partsOf s.buffer) s.buffer)) := by
+        simp [adds, addD, List.filterMap_cons, List.filterMap_append]
+      rw [this, adds_retry, adds_retry]; rfl
+
+/-! ### the invariant and the per-partition FIFO step -/
+
+structure PInv (s : St) : Prop where
+  one : s.sets.length ≤ 1
+  data : ∀ t ∈ inside s, t.kind = .data
+  quiet : ∀ p, needsRetry s p = true → onPart p (inside s) = []
+
+theorem init_inv : PInv {} := ⟨by simp, by simp [inside], by simp [needsRetry]⟩
+
+/-- the data tokens of partition `p` a step takes in -/
+def dataArrived (p : Int) (s : St) (i : In) : List Tok := onPart p ((arrived s i).filter (fun t => !t.isFin))
+
+theorem kind_data_of {t : Tok} (h1 : t.kind ≠ .syn) (h2 : t.kind ≠ .fin) : t.kind = .data := by
+  cases h : t.kind <;> simp_all
+
+theorem isFin_of_fin {t : Tok} (h : t.kind = .fin) : t.isFin = true := by simp [Tok.isFin, h]
+
+theorem outData_bounce1 (max : Nat) (p : Int) (t : Tok) :
+    outData p [.refuse t.id, retryMsg max t] = if t.part = p ∧ t.isFin = false then [t.id] else [] := by
+  cases hf : t.isFin <;> by_cases hr : t.retries ≥ max <;> by_cases hp : t.part = p <;>
+    simp [outData, outD, retryMsg, hf, hr, hp, List.filterMap_cons]
+
+theorem bounces_bounce1 (max : Nat) (p : Int) (t : Tok) :
+    bounces p [.refuse t.id, retryMsg max t] = if t.part = p then [t.id] else [] := by
+  by_cases hr : t.retries ≥ max <;> by_cases hp : t.part = p <;>
+    simp [bounces, bnc, retryMsg, hr, hp, List.filterMap_cons]
+
+theorem onPart_single (p : Int) (t : Tok) : onPart p [t] = if t.part = p then [t] else [] := by
+  by_cases hp : t.part = p <;> simp [onPart, hp]
+
+theorem recv_fifo (max : Nat) (s : St) (t : Tok) (ov : Bool) (p : Int) (h : PInv s) :
+    outData p (recv max s t ov).2 ++ ids (onPart p (inside (recv max s t ov).1)) =
+      ids (onPart p (inside s)) ++ ids (dataArrived p s (.recv t ov)) := by
+  unfold recv dataArrived arrived
+  by_cases hw : s.wait.isSome = true
+  · simp [hw, outData, outD, onPart, ids]
+  · simp only [hw, Bool.false_eq_true, ↓reduceIte]
+    have hwn : s.wait = none := by simpa using hw
+    by_cases hs : t.kind = .syn
+    · simp [hs, outData, outD, inside, onPart, ids]
+    · simp only [hs, ↓reduceIte]
+      by_cases hn : needsRetry s t.part = true
+      · simp only [hn, ↓reduceIte, outData_bounce1]
+        have hin : ∀ s' : St, s'.sets = s.sets → s'.buffer = s.buffer → s'.wait = s.wait → inside s' = inside s := by
+          intro s' a b c; simp [inside, a, b, c]
+        have e : inside (if (!s.closing && decide (t.kind = Kind.fin)) = true then
+            { s with cr := setCr s.cr t.part false } else s) = inside s := by
+          split <;> simp [inside]
+        rw [e]
+        by_cases hp : t.part = p
+        · have q := h.quiet p (by rw [← hp]; exact hn)
+          rw [q]
+          cases hf : t.isFin <;> simp [hp, hf, onPart, ids]
+        · simp [hp, onPart, ids]
+      · simp only [hn, Bool.false_eq_true, ↓reduceIte]
+        by_cases hf : t.kind = .fin
+        · simp [hf, outData_bounce1, isFin_of_fin hf, onPart, ids]
+        · simp only [hf, ↓reduceIte]
+          have hd := kind_data_of hs hf
+          have hnf : t.isFin = false := isFin_of_data t hd
+          cases ov
+          · simp [inside, hwn, onPart_append, hnf, outData, outD, ids, onPart_single]
+          · simp [inside, hwn, onPart_append, hnf, outData, ids, onPart_single]
+
+theorem recv_inv (max : Nat) (s : St) (t : Tok) (ov : Bool) (h : PInv s) : PInv (recv max s t ov).1 := by
+  unfold recv
+  by_cases hw : s.wait.isSome = true
+  · simpa [hw] using h
+  · simp only [hw, Bool.false_eq_true, ↓reduceIte]
+    have hwn : s.wait = none := by simpa using hw
+    by_cases hs : t.kind = .syn
+    · simp only [hs, ↓reduceIte]
+      refine ⟨h.one, h.data, ?_⟩
+      intro p hp
+      apply h.quiet p
+      simp only [needsRetry, setCr, Bool.or_eq_true] at hp ⊢
+      rcases hp with hp | hp
+      · exact Or.inl hp
+      · by_cases e : p = t.part
+        · simp [e] at hp
+        · simp only [e, ↓reduceIte] at hp; exact Or.inr hp
+    · simp only [hs, ↓reduceIte]
+      by_cases hn : needsRetry s t.part = true
+      · simp only [hn, ↓reduceIte]
+        split
+        · refine ⟨h.one, h.data, ?_⟩
+          intro p hp
+          apply h.quiet p
+          simp only [needsRetry, setCr, Bool.or_eq_true] at hp ⊢
+          rcases hp with hp | hp
+          · exact Or.inl hp
+          · by_cases e : p = t.part
+            · simp [e] at hp
+            · simp only [e, ↓reduceIte] at hp; exact Or.inr hp
+        · exact h
+      · simp only [hn, Bool.false_eq_true, ↓reduceIte]
+        by_cases hf : t.kind = .fin
+        · simpa [hf] using h
+        · simp only [hf, ↓reduceIte]
+          have hd := kind_data_of hs hf
+          have key : ∀ s' : St, s'.sets = s.sets → inside s' = inside s ++ [t] →
+              (∀ p, needsRetry s' p = needsRetry s p) → PInv s' := by
+            intro s' a b c
+            refine ⟨by rw [a]; exact h.one, ?_, ?_⟩
+            · intro x hx
+              rw [b] at hx
+              rcases List.mem_append.1 hx with hx | hx
+              · exact h.data x hx
+              · have : x = t := by simpa using hx
+                rw [this]; exact hd
+            · intro p hp
+              rw [c] at hp
+              rw [b, onPart_append, h.quiet p hp, onPart_single]
+              by_cases e : t.part = p
+              · rw [e] at hn; exact absurd hp hn
+              · simp [e]
+          cases ov
+          · exact key _ rfl (by simp [inside, hwn]) (fun p => rfl)
+          · exact key _ rfl (by simp [inside, hwn]) (fun p => rfl)
+
+theorem handover_inside (s : St) : inside (handover s).1 = inside s ∧ outData p (handover s).2 = [] ∧
+    bounces p (handover s).2 = [] ∧ (∀ q, needsRetry (handover s).1 q = needsRetry s q) ∧ (handover s).1.sets.length ≤ 1 ∨
+    ((handover s).1 = s ∧ (handover s).2 = [.disabled]) := by
+  unfold handover
+  by_cases h1 : (!s.sets.isEmpty) = true
+  · right; simp [h1]
+  · simp only [h1, Bool.false_eq_true, ↓reduceIte]
+    have hs : s.sets = [] := by simpa using h1
+    cases hw : s.wait with
+    | none =>
+      simp only []
+      by_cases h2 : (s.buffer.isEmpty && !s.stale) = true
+      · right; simp [h2]
+      · left; simp [h2, inside, hs, hw, outData, bounces, needsRetry]
+    | some t =>
+      left; simp [inside, hs, hw, outData, outD, bounces, bnc, needsRetry, List.filterMap_cons]
+
+theorem handover_fifo (s : St) (p : Int) :
+    outData p (handover s).2 ++ ids (onPart p (inside (handover s).1)) = ids (onPart p (inside s)) := by
+  rcases handover_inside (p := p) s with ⟨a, b, _⟩ | ⟨a, b⟩
+  · rw [a, b]; rfl
+  · rw [a, b]; simp [outData, outD, List.filterMap_cons]
+
+theorem handover_inv (s : St) (h : PInv s) : PInv (handover s).1 := by
+  rcases handover_inside (p := 0) s with ⟨a, _, _, d, e⟩ | ⟨a, _⟩
+  · exact ⟨e, by rw [a]; exact h.data, fun p hp => by rw [a]; exact h.quiet p (by rw [← d]; exact hp)⟩
+  · rw [a]; exact h
+
+/-- the re-check of waitForSpace, given what handleResponse guarantees (`H` = its result) -/
+theorem recheck_core (max : Nat) (s : St) (sent : List Tok) (H : St × List Action) (still : Bool)
+    (hs : s.sets = [sent])
+    (hd2 : ∀ t ∈ s.buffer, t.kind = .data) (hd3 : ∀ t, s.wait = some t → t.kind = .data)
+    (f1 : H.1.sets = []) (f2 : H.1.wait = s.wait) (f3 : ∀ t ∈ H.1.buffer, t ∈ s.buffer)
+    (ff : ∀ p, outData p H.2 ++ ids (onPart p H.1.buffer) = ids (onPart p sent) ++ ids (onPart p s.buffer))
+    (hbq : ∀ p, needsRetry H.1 p = true → onPart p H.1.buffer = []) :
+    (∀ p, outData p (recheck max H.1 H.2 still).2 ++ ids (onPart p (inside (recheck max H.1 H.2 still).1)) =
+      ids (onPart p (inside s))) ∧
+    PInv (recheck max H.1 H.2 still).1 := by
+  obtain ⟨x, acts⟩ := H
+  simp only at f1 f2 f3 ff hbq ⊢
+  unfold recheck
+  cases hw : s.wait with
+  | none =>
+    rw [hw] at f2
+    simp only [f2]
+    constructor
+    · intro p
+      have e := ff p
+      simp only [inside, f1, f2, hw, hs, List.flatten_nil, List.nil_append, Option.toList_none, List.append_nil,
+        List.flatten_cons, onPart_append, ids, List.map_append] at e ⊢
+      exact e
+    · refine ⟨by simp [f1], ?_, ?_⟩
+      · intro t ht
+        simp only [inside, f1, f2, List.flatten_nil, List.nil_append, Option.toList_none, List.append_nil] at ht
+        exact hd2 t (f3 t ht)
+      · intro p hp
+        simp only [inside, f1, f2, List.flatten_nil, List.nil_append, Option.toList_none, List.append_nil]
+        exact hbq p hp
+  | some t =>
+    have htd := hd3 t hw
+    rw [hw] at f2
+    simp only [f2]
+    by_cases hn : needsRetry x t.part = true
+    · simp only [hn, ↓reduceIte]
+      constructor
+      · intro p
+        have e := ff p
+        have o1 : outData p [retryMsg max t] = ids (onPart p [t]) := by
+          have := outData_retry max p [t] (by simpa using htd)
+          simpa [retryMsgs] using this
+        simp only [inside, f1, hw, hs, List.flatten_nil, List.nil_append, Option.toList_none, List.append_nil,
+          List.flatten_cons, onPart_append, Option.toList_some, outData_append, o1] at e ⊢
+        by_cases hp : t.part = p
+        · have := hbq p (by rw [← hp]; exact hn)
+          rw [this] at e ⊢
+          simp only [ids, List.map_nil, List.append_nil, List.map_append] at e ⊢
+          rw [e]
+        · simp only [onPart_single, hp, ↓reduceIte, ids, List.map_nil, List.append_nil, List.map_append] at e ⊢
+          exact e
+      · refine ⟨by simp [f1], ?_, ?_⟩
+        · intro y hy
+          simp only [inside, f1, List.flatten_nil, List.nil_append, Option.toList_none, List.append_nil] at hy
+          exact hd2 y (f3 y hy)
+        · intro p hp
+          simp only [inside, f1, List.flatten_nil, List.nil_append, Option.toList_none, List.append_nil]
+          exact hbq p hp
+    · simp only [hn, Bool.false_eq_true, ↓reduceIte]
+      have key : ∀ s' : St, s'.sets = [] → inside s' = x.buffer ++ [t] →
+          (∀ p, needsRetry s' p = needsRetry x p) →
+          (∀ p, outData p acts ++ ids (onPart p (inside s')) = ids (onPart p (inside s))) ∧ PInv s' := by
+        intro s' a b c
+        constructor
+        · intro p
+          have e := ff p
+          rw [b, onPart_append]
+          simp only [inside, hw, hs, List.flatten_nil, Option.toList_some,
+            List.flatten_cons, onPart_append, List.append_nil, ids, List.map_append] at e ⊢
+          rw [← List.append_assoc, e]
+        · refine ⟨by simp [a], ?_, ?_⟩
+          · intro y hy
+            rw [b] at hy
+            rcases List.mem_append.1 hy with hy | hy
+            · exact hd2 y (f3 y hy)
+            · have : y = t := by simpa using hy
+              rw [this]; exact htd
+          · intro p hp
+            rw [c] at hp
+            rw [b, onPart_append, hbq p hp, onPart_single]
+            by_cases e : t.part = p
+            · rw [e] at hn; exact absurd hp hn
+            · simp [e]
+      cases still
+      · simp only [Bool.false_eq_true, ↓reduceIte]
+        have k := key { x with wait := none, buffer := x.buffer ++ [t], stale := false }
+          (by simp [f1]) (by simp [inside, f1]) (fun p => rfl)
+        refine ⟨fun p => ?_, k.2⟩
+        rw [outData_append]
+        have : outData p [Action.add t.id t.part] = [] := by simp [outData, outD, List.filterMap_cons]
+        rw [this, List.append_nil]
+        exact k.1 p
+      · simp only [↓reduceIte]
+        exact key x f1 (by simp [inside, f1, f2]) (fun p => rfl)
+
+/-- handleResponse + re-check, for a state whose only set in flight is `sent` -/
+theorem resp_core (max : Nat) (s : St) (sent : List Tok) (r : Resp) (still : Bool) (h : PInv s)
+    (hs : s.sets = [sent]) :
+    (∀ p, outData p (resp max s r still).2 ++ ids (onPart p (inside (resp max s r still).1)) = ids (onPart p (inside s))) ∧
+    PInv (resp max s r still).1 := by
+  have hd1 : ∀ t ∈ sent, t.kind = .data := fun t ht => h.data t (by simp [inside, hs, ht])
+  have hd2 : ∀ t ∈ s.buffer, t.kind = .data := fun t ht => h.data t (by simp [inside, ht])
+  have hd3 : ∀ t, s.wait = some t → t.kind = .data := fun t ht => h.data t (by simp [inside, ht])
+  obtain ⟨f1, f2, f3⟩ := handle_frame max { s with sets := [] } sent r
+  have ff := fun p => handle_fifo max { s with sets := [] } sent r p hd1 hd2
+  have fn := fun p => handle_needs max { s with sets := [] } sent r p
+  have hq : ∀ p, needsRetry s p = true → onPart p sent = [] ∧ onPart p s.buffer = [] := by
+    intro p hp
+    have := h.quiet p hp
+    simp only [inside, hs, List.flatten_cons, List.flatten_nil, List.append_nil, onPart_append, List.append_eq_nil_iff] at this
+    exact ⟨this.1.1, this.1.2⟩
+  have hbq : ∀ p, needsRetry (handle max { s with sets := [] } sent r).1 p = true →
+      onPart p (handle max { s with sets := [] } sent r).1.buffer = [] := by
+    intro p hp
+    rw [(fn p).1] at hp
+    by_cases hf : failsFor max p sent r
+    · exact (fn p).2.1 hf
+    · have hp' : needsRetry s p = true := by
+        have : decide (failsFor max p sent r) = false := decide_eq_false hf
+        simpa [this, needsRetry] using hp
+      have e := ff p
+      simp only [] at e
+      rw [(hq p hp').1, (hq p hp').2] at e
+      have hl := congrArg List.length e
+      simp only [List.length_append, ids, List.map_nil, List.length_nil, List.length_map] at hl
+      exact List.eq_nil_of_length_eq_zero (by omega)
+  unfold resp
+  simp only [hs]
+  exact recheck_core max s sent (handle max { s with sets := [] } sent r) still hs hd2 hd3 f1 f2 f3 ff hbq
+
+/-- ONE STEP: per partition, (data tokens that leave) ++ (what is inside afterwards) = (what was inside) ++ (the
+    data token taken in, if any); and the invariant is kept -/
+theorem step_fifo (max : Nat) (s : St) (i : In) (h : PInv s) :
+    (∀ p, outData p (step max s i).2 ++ ids (onPart p (inside (step max s i).1)) =
+      ids (onPart p (inside s)) ++ ids (dataArrived p s i)) ∧ PInv (step max s i).1 := by
+  cases i with
+  | recv t ov => exact ⟨fun p => recv_fifo max s t ov p h, recv_inv max s t ov h⟩
+  | handover =>
+    refine ⟨fun p => ?_, handover_inv s h⟩
+    simp only [step, dataArrived, arrived, List.filter_nil, onPart, ids, List.map_nil, List.append_nil]
+    exact handover_fifo s p
+  | resp r still =>
+    simp only [step, dataArrived, arrived, List.filter_nil, onPart, ids, List.map_nil, List.append_nil]
+    cases hs : s.sets with
+    | nil => simp [resp, hs, outData, outD, List.filterMap_cons, h]
+    | cons sent rest =>
+      have : rest = [] := by
+        have := h.one; rw [hs] at this
+        simp only [List.length_cons] at this
+        exact List.eq_nil_of_length_eq_zero (by omega)
+      subst this
+      exact resp_core max s sent r still h hs
+
+/-- data tokens of partition `p` taken in along a run -/
+def dataArrivals (max : Nat) (p : Int) (s : St) (ins : List In) : List Tok :=
+  onPart p ((arrivals max s ins).filter (fun t => !t.isFin))
+
+theorem dataArrivals_cons (max : Nat) (p : Int) (s : St) (i : In) (is : List In) :
+    dataArrivals max p s (i :: is) = dataArrived p s i ++ dataArrivals max p (step max s i).1 is := by
+  simp [dataArrivals, dataArrived, arrivals, onPart_append]
+
+theorem run_fifo (max : Nat) (s : St) (ins : List In) (h : PInv s) :
+    (∀ p, outData p (runAll max s ins).2 ++ ids (onPart p (inside (runAll max s ins).1)) =
+      ids (onPart p (inside s)) ++ ids (dataArrivals max p s ins)) ∧ PInv (runAll max s ins).1 := by
+  induction ins generalizing s with
+  | nil => exact ⟨fun p => by simp [runAll, outData, dataArrivals, arrivals, onPart, ids], h⟩
+  | cons i is ih =>
+    obtain ⟨a, b⟩ := step_fifo max s i h
+    obtain ⟨c, d⟩ := ih (step max s i).1 b
+    refine ⟨fun p => ?_, d⟩
+    simp only [runAll, outData_append, dataArrivals_cons]
+    rw [List.append_assoc, c p, ← List.append_assoc, a p]
+    simp [ids, List.append_assoc]
+
+/-! ### the quiet period of a partition -/
+
+/-- inputs that end the quiet period of partition `p`: its fin chaser (when the worker is not closing) or a syn -/
+def reopens (p : Int) : In → Prop
+  | .recv t _ => t.part = p ∧ (t.kind = .syn ∨ t.kind = .fin)
+  | _ => False
+
+instance (p : Int) (i : In) : Decidable (reopens p i) := by
+  cases i <;> unfold reopens <;> infer_instance
+
+theorem recv_quiet (max : Nat) (s : St) (t : Tok) (ov : Bool) (p : Int) (_h : PInv s) (hn : needsRetry s p = true) :
+    bounces p (recv max s t ov).2 = ids (onPart p (arrived s (.recv t ov))) ∧
+    (¬ reopens p (.recv t ov) → adds p (recv max s t ov).2 = [] ∧ needsRetry (recv max s t ov).1 p = true) := by
+  unfold recv arrived reopens
+  by_cases hw : s.wait.isSome = true
+  · simp [hw, bounces, bnc, adds, addD, onPart, ids, hn, List.filterMap_cons]
+  · simp only [hw, Bool.false_eq_true, ↓reduceIte]
+    by_cases hs : t.kind = .syn
+    · simp only [hs, ↓reduceIte]
+      refine ⟨by simp [bounces, bnc, onPart, ids, List.filterMap_cons], fun hr => ⟨by simp [adds, addD, List.filterMap_cons], ?_⟩⟩
+      have : t.part ≠ p := fun e => hr ⟨e, Or.inl trivial⟩
+      simp only [needsRetry, setCr, Bool.or_eq_true] at hn ⊢
+      rcases hn with hn | hn
+      · exact Or.inl hn
+      · right; simp [Ne.symm this, hn]
+    · simp only [hs, ↓reduceIte]
+      by_cases hnt : needsRetry s t.part = true
+      · simp only [hnt, ↓reduceIte, bounces_bounce1, onPart_single]
+        refine ⟨by by_cases e : t.part = p <;> simp [e, ids], fun hr => ⟨?_, ?_⟩⟩
+        · by_cases hr2 : t.retries ≥ max <;> simp [adds, addD, retryMsg, hr2, List.filterMap_cons]
+        · split
+          · rename_i hc
+            have hf : t.kind = .fin := by
+              simp only [Bool.and_eq_true, decide_eq_true_eq] at hc; exact hc.2
+            have : t.part ≠ p := fun e => hr ⟨e, Or.inr hf⟩
+            simp only [needsRetry, setCr, Bool.or_eq_true] at hn ⊢
+            rcases hn with hn | hn
+            · exact Or.inl hn
+            · right; simp [Ne.symm this, hn]
+          · exact hn
+      · have hpt : t.part ≠ p := fun e => hnt (by rw [e]; exact hn)
+        simp only [hnt, Bool.false_eq_true, ↓reduceIte]
+        by_cases hf : t.kind = .fin
+        · simp only [hf, ↓reduceIte, bounces_bounce1, onPart_single, hpt]
+          refine ⟨rfl, fun _ => ⟨?_, hn⟩⟩
+          by_cases hr2 : t.retries ≥ max <;> simp [adds, addD, retryMsg, hr2, List.filterMap_cons]
+        · simp only [hf, ↓reduceIte, onPart_single, hpt]
+          cases ov
+          · simp [bounces, bnc, adds, addD, hpt, ids, List.filterMap_cons, needsRetry] at hn ⊢
+            exact hn
+          · simp [bounces, adds, ids, needsRetry] at hn ⊢
+            exact hn
+
+theorem handover_quiet (s : St) (p : Int) (h : PInv s) (hn : needsRetry s p = true) :
+    bounces p (handover s).2 = [] ∧ adds p (handover s).2 = [] ∧ needsRetry (handover s).1 p = true := by
+  have q := h.quiet p hn
+  unfold handover
+  by_cases h1 : (!s.sets.isEmpty) = true
+  · simp [h1, bounces, bnc, adds, addD, hn, List.filterMap_cons]
+  · simp only [h1, Bool.false_eq_true, ↓reduceIte]
+    cases hw : s.wait with
+    | none =>
+      simp only []
+      by_cases h2 : (s.buffer.isEmpty && !s.stale) = true
+      · simp [h2, bounces, bnc, adds, addD, hn, List.filterMap_cons]
+      · simp only [h2, Bool.false_eq_true, ↓reduceIte]
+        exact ⟨rfl, rfl, hn⟩
+    | some t =>
+      have : t.part ≠ p := by
+        intro e
+        simp only [inside, hw, Option.toList_some, onPart_append, List.append_eq_nil_iff, onPart_single, e, ↓reduceIte] at q
+        exact absurd q.2 (by simp)
+      simp only []
+      refine ⟨by simp [bounces, bnc, List.filterMap_cons], by simp [adds, addD, this], hn⟩
+
+theorem resp_quiet (max : Nat) (s : St) (r : Resp) (still : Bool) (p : Int) (h : PInv s) (hn : needsRetry s p = true) :
+    bounces p (resp max s r still).2 = [] ∧ adds p (resp max s r still).2 = [] ∧
+    needsRetry (resp max s r still).1 p = true := by
+  have q := h.quiet p hn
+  unfold resp
+  cases hs : s.sets with
+  | nil => simp [bounces, bnc, adds, addD, hn, List.filterMap_cons]
+  | cons sent rest =>
+    simp only []
+    obtain ⟨_, f2, _⟩ := handle_frame max { s with sets := rest } sent r
+    obtain ⟨n1, _, n3, n4⟩ := handle_needs max { s with sets := rest } sent r p
+    have q1 : onPart p sent = [] ∧ onPart p s.buffer = [] ∧ onPart p s.wait.toList = [] := by
+      simp only [inside, hs, List.flatten_cons, onPart_append, List.append_eq_nil_iff] at q
+      exact ⟨q.1.1.1, q.1.2, q.2⟩
+    have hb : bounces p (handle max { s with sets := rest } sent r).2 = [] := by
+      rw [n3]; simp only []; rw [q1.1, q1.2.1]; simp [ids]
+    have hnn : needsRetry (handle max { s with sets := rest } sent r).1 p = true := by
+      rw [n1]
+      have : needsRetry { s with sets := rest } p = true := hn
+      rw [this]; rfl
+    generalize handle max { s with sets := rest } sent r = H at *
+    obtain ⟨x, acts⟩ := H
+    simp only at f2 hb n4 hnn ⊢
+    unfold recheck
+    cases hw : s.wait with
+    | none =>
+      rw [hw] at f2
+      simp only [f2]
+      exact ⟨hb, n4, hnn⟩
+    | some t =>
+      rw [hw] at f2
+      simp only [f2]
+      have htp : t.part ≠ p := by
+        intro e
+        have := q1.2.2
+        simp only [hw, Option.toList_some, onPart_single, e, ↓reduceIte] at this
+        exact absurd this (by simp)
+      by_cases hn2 : needsRetry x t.part = true
+      · simp only [hn2, ↓reduceIte, bounces_append, adds_append, hb, n4, List.nil_append]
+        refine ⟨?_, ?_, hnn⟩
+        · by_cases hr2 : t.retries ≥ max <;> simp [bounces, bnc, retryMsg, hr2, htp]
+        · by_cases hr2 : t.retries ≥ max <;> simp [adds, addD, retryMsg, hr2, List.filterMap_cons]
+      · simp only [hn2, Bool.false_eq_true, ↓reduceIte]
+        cases still
+        · simp only [Bool.false_eq_true, ↓reduceIte, bounces_append, adds_append, hb, n4, List.nil_append]
+          exact ⟨by simp [bounces, bnc, List.filterMap_cons], by simp [adds, addD, htp], hnn⟩
+        · simp only [↓reduceIte]
+          exact ⟨hb, n4, hnn⟩
+
+/-- ONE STEP while partition `p` is refused: what is bounced of `p` is exactly what arrives of `p`; and unless the
+    input is the partition's fin chaser or a syn, nothing of `p` is added and `p` stays refused -/
+theorem step_quiet (max : Nat) (s : St) (i : In) (p : Int) (h : PInv s) (hn : needsRetry s p = true) :
+    bounces p (step max s i).2 = ids (onPart p (arrived s i)) ∧
+    (¬ reopens p i → adds p (step max s i).2 = [] ∧ needsRetry (step max s i).1 p = true) := by
+  cases i with
+  | recv t ov => exact recv_quiet max s t ov p h hn
+  | handover =>
+    obtain ⟨a, b, c⟩ := handover_quiet s p h hn
+    exact ⟨by simp [step, arrived, a, onPart, ids], fun _ => ⟨b, c⟩⟩
+  | resp r still =>
+    obtain ⟨a, b, c⟩ := resp_quiet max s r still p h hn
+    exact ⟨by simp [step, arrived, a, onPart, ids], fun _ => ⟨b, c⟩⟩
+
+theorem arrivals_cons (max : Nat) (s : St) (i : In) (is : List In) :
+    arrivals max s (i :: is) = arrived s i ++ arrivals max (step max s i).1 is := rfl
+
+/-- a run without the partition's fin chaser / syn, started while the partition is refused -/
+theorem run_quiet (max : Nat) (s : St) (mid : List In) (p : Int) (h : PInv s) (hn : needsRetry s p = true)
+    (hm : ∀ i ∈ mid, ¬ reopens p i) :
+    bounces p (runAll max s mid).2 = ids (onPart p (arrivals max s mid)) ∧
+    adds p (runAll max s mid).2 = [] ∧ needsRetry (runAll max s mid).1 p = true ∧ PInv (runAll max s mid).1 := by
+  induction mid generalizing s with
+  | nil => exact ⟨by simp [runAll, bounces, arrivals, onPart, ids], by simp [runAll, adds], hn, h⟩
+  | cons i is ih =>
+    obtain ⟨a, b⟩ := step_quiet max s i p h hn
+    obtain ⟨b1, b2⟩ := b (hm i (by simp))
+    obtain ⟨c1, c2, c3, c4⟩ := ih (step max s i).1 (step_fifo max s i h).2 b2 (fun j hj => hm j (by simp [hj]))
+    refine ⟨?_, ?_, c3, c4⟩
+    · simp only [runAll, bounces_append, arrivals_cons, onPart_append, a, c1, ids, List.map_append]
+    · simp only [runAll, adds_append, b1, c2, List.append_nil]
+
+/-- the failing response itself: the partition's part of the answered set, then of the buffer, then the message
+    held in waitForSpace are handed to retryMessage in this order; the partition is refused from now on -/
+theorem resp_fails (max : Nat) (s : St) (sent : List Tok) (r : Resp) (still : Bool) (p : Int)
+    (hs : s.sets = [sent]) (hf : failsFor max p sent r) :
+    bounces p (resp max s r still).2 =
+      ids (onPart p sent) ++ ids (onPart p s.buffer) ++ ids (onPart p s.wait.toList) ∧
+    adds p (resp max s r still).2 = [] ∧ needsRetry (resp max s r still).1 p = true := by
+  unfold resp
+  simp only [hs]
+  obtain ⟨_, f2, _⟩ := handle_frame max { s with sets := [] } sent r
+  obtain ⟨n1, _, n3, n4⟩ := handle_needs max { s with sets := [] } sent r p
+  have hb : bounces p (handle max { s with sets := [] } sent r).2 = ids (onPart p sent) ++ ids (onPart p s.buffer) := by
+    rw [n3]; simp [hf]
+  have hnn : needsRetry (handle max { s with sets := [] } sent r).1 p = true := by
+    rw [n1, decide_eq_true hf]; simp
+  generalize handle max { s with sets := [] } sent r = H at *
+  obtain ⟨x, acts⟩ := H
+  simp only at f2 hb n4 hnn ⊢
+  unfold recheck
+  cases hw : s.wait with
+  | none =>
+    rw [hw] at f2
+    simp only [f2, Option.toList_none, onPart, List.filter_nil, ids, List.map_nil, List.append_nil]
+    exact ⟨by simpa [ids, onPart] using hb, n4, hnn⟩
+  | some t =>
+    rw [hw] at f2
+    simp only [f2, Option.toList_some, onPart_single]
+    by_cases hn2 : needsRetry x t.part = true
+    · simp only [hn2, ↓reduceIte, bounces_append, adds_append, hb, n4, List.nil_append]
+      refine ⟨?_, ?_, hnn⟩
+      · congr 1
+        by_cases hr2 : t.retries ≥ max <;> by_cases e : t.part = p <;>
+          simp [bounces, bnc, retryMsg, hr2, e, ids, List.filterMap_cons]
+      · by_cases hr2 : t.retries ≥ max <;> simp [adds, addD, retryMsg, hr2, List.filterMap_cons]
+    · have htp : t.part ≠ p := fun e => hn2 (by rw [e]; exact hnn)
+      simp only [hn2, Bool.false_eq_true, ↓reduceIte, htp, ids, List.map_nil, List.append_nil]
+      cases still
+      · simp only [Bool.false_eq_true, ↓reduceIte, bounces_append, adds_append, hb, n4, List.nil_append]
+        exact ⟨by simp [bounces, bnc, ids, List.filterMap_cons], by simp [adds, addD, htp], hnn⟩
+      · simp only [↓reduceIte]
+        exact ⟨by simpa [ids] using hb, n4, hnn⟩
+
+theorem runAll_append (max : Nat) (s : St) (a b : List In) :
+    runAll max s (a ++ b) = ((runAll max (runAll max s a).1 b).1, (runAll max s a).2 ++ (runAll max (runAll max s a).1 b).2) := by
+  induction a generalizing s with
+  | nil => simp [runAll]
+  | cons i is ih => simp [runAll, ih, List.append_assoc]
+
+theorem arrivals_append (max : Nat) (s : St) (a b : List In) :
+    arrivals max s (a ++ b) = arrivals max s a ++ arrivals max (runAll max s a).1 b := by
+  induction a generalizing s with
+  | nil => simp [arrivals, runAll]
+  | cons i is ih => simp [arrivals, runAll, ih, List.append_assoc]
+
+/-! ## The theorems (every one for EVERY input sequence of the worker, from its initial state) -/
+
+/-- example run (Retry.Max = 3): partitions 0 and 1 share the worker; messages 1, 2 (partition 0) and 9 (partition 1)
+    are at the bridge, 3 (partition 0) is in the buffer -/
+def exPre : List In :=
+  [.recv ⟨-1, 0, 0, .syn⟩ false, .recv ⟨1, 0, 0, .data⟩ false, .recv ⟨2, 0, 0, .data⟩ false,
+   .recv ⟨9, 1, 0, .data⟩ false, .handover, .recv ⟨3, 0, 0, .data⟩ false]
+def exSent : List Tok := [⟨1, 0, 0, .data⟩, ⟨2, 0, 0, .data⟩, ⟨9, 1, 0, .data⟩]
+/-- the response: partition 0 not-leader (retriable), partition 1 fine -/
+def exResp : Resp := .verdicts (fun p => if p = 0 then .retriable else .ok) [1, 0] [0]
+/-- afterwards: message 4 (partition 0) and message 8 (partition 1) arrive, then partition 0's fin chaser -/
+def exMid : List In := [.recv ⟨4, 0, 0, .data⟩ false, .recv ⟨8, 1, 0, .data⟩ false]
+def exLast : In := .recv ⟨-2, 0, 0, .fin⟩ false
+
+/-- every reachable state satisfies the invariant -/
+theorem run_inv (max : Nat) (ins : List In) : PInv (runAll max {} ins).1 := (run_fifo max {} ins init_inv).2
+
+/-- **At most one set in flight.**  Whatever the inputs, at most one produce set is between hand-over to the bridge
+    and the handling of its response. -/
+theorem bp_at_most_one_set_in_flight (max : Nat) (ins : List In) : (runAll max {} ins).1.sets.length ≤ 1 :=
+  (run_inv max ins).one
+
+example : (runAll 2 {} [.recv ⟨1, 0, 0, .data⟩ false, .handover, .recv ⟨2, 0, 0, .data⟩ false, .handover]).1.sets.length = 1
+    ∧ (runAll 2 {} [.recv ⟨1, 0, 0, .data⟩ false, .handover, .recv ⟨2, 0, 0, .data⟩ false, .handover]).2
+        = [.add 1 0, .add 2 0, .disabled] := by decide
+
+/-- **Per-partition FIFO.**  The data tokens of a partition that have left the worker (success, failure or bounce), in
+    the order they left, followed by the partition's tokens still inside (set at the bridge, buffer, held message), are
+    exactly the data tokens of the partition in the order they arrived. -/
+theorem bp_partition_fifo (max : Nat) (ins : List In) (p : Int) :
+    outData p (runAll max {} ins).2 ++ ids (onPart p (inside (runAll max {} ins).1)) =
+      ids (dataArrivals max p {} ins) := by
+  have := (run_fifo max {} ins init_inv).1 p
+  simpa [inside, onPart, ids] using this
+
+example : outData 0 (runAll 3 {} (exPre ++ [.resp exResp false])).2 = [1, 2, 3] ∧
+    outData 1 (runAll 3 {} (exPre ++ [.resp exResp false])).2 = [9] ∧
+    ids (dataArrivals 3 0 {} (exPre ++ [.resp exResp false])) = [1, 2, 3] := by decide
+
+/-- **Conservation.**  At any time every data token received (counted by id and partition) is exactly one of: in the set
+    awaiting its response, in the buffer, held in waitForSpace, or gone via success / failure / bounce - nothing is
+    lost, nothing duplicated.  And only data tokens are ever held: a fin chaser is never buffered. -/
+theorem bp_conservation (max : Nat) (ins : List In) (p : Int) (i : Int) :
+    (ids (dataArrivals max p {} ins)).count i =
+      (ids (onPart p (runAll max {} ins).1.sets.flatten)).count i + (ids (onPart p (runAll max {} ins).1.buffer)).count i +
+      (ids (onPart p (runAll max {} ins).1.wait.toList)).count i + (outData p (runAll max {} ins).2).count i ∧
+    (∀ t ∈ inside (runAll max {} ins).1, t.kind = .data) := by
+  refine ⟨?_, (run_inv max ins).data⟩
+  rw [← bp_partition_fifo max ins p]
+  simp only [inside, onPart_append, ids, List.map_append, List.count_append]
+  omega
+
+example : (ids (dataArrivals 3 0 {} exPre)).count 3 = 1 ∧ (ids (onPart 0 (runAll 3 {} exPre).1.buffer)).count 3 = 1 ∧
+    (ids (onPart 0 (runAll 3 {} exPre).1.sets.flatten)).count 1 = 1 ∧ (outData 0 (runAll 3 {} exPre).2).count 1 = 0 ∧
+    (outData 0 (runAll 3 {} (exPre ++ [.resp exResp false])).2).count 1 = 1 := by decide
+
+/-- **Quiet after failure.**  From a response that fails partition `p` (retriable verdict with Retry.Max > 0, or a
+    connection-level error) on, as long as the worker receives neither the partition's fin chaser nor a syn for it,
+    no token of `p` is added to the buffer, nothing of `p` is inside, and `p` stays refused. -/
+theorem bp_quiet_after_failure (max : Nat) (pre : List In) (sent : List Tok) (r : Resp) (still : Bool) (mid : List In)
+    (p : Int) (hs : (runAll max {} pre).1.sets = [sent]) (hf : failsFor max p sent r)
+    (hm : ∀ i ∈ mid, ¬ reopens p i) :
+    adds p (runAll max (runAll max {} pre).1 (.resp r still :: mid)).2 = [] ∧
+    needsRetry (runAll max (runAll max {} pre).1 (.resp r still :: mid)).1 p = true ∧
+    onPart p (inside (runAll max (runAll max {} pre).1 (.resp r still :: mid)).1) = [] := by
+  have h0 := run_inv max pre
+  obtain ⟨_, a2, a3⟩ := resp_fails max _ sent r still p hs hf
+  have h1 := (step_fifo max _ (.resp r still) h0).2
+  obtain ⟨_, b2, b3, b4⟩ := run_quiet max _ mid p h1 a3 hm
+  refine ⟨?_, b3, b4.quiet p b3⟩
+  simp only [runAll, adds_append]
+  rw [show (step max (runAll max {} pre).1 (.resp r still)).2 = (resp max (runAll max {} pre).1 r still).2 from rfl, a2]
+  exact b2
+
+example : (runAll 3 {} exPre).1.sets = [exSent] ∧ failsFor 3 0 exSent exResp ∧ (∀ i ∈ exMid, ¬ reopens 0 i) ∧
+    -- partition 1 is not affected: its message 8 is added
+    adds 1 (runAll 3 (runAll 3 {} exPre).1 (.resp exResp false :: exMid)).2 = [8] ∧
+    -- after the fin chaser partition 0 is open again
+    needsRetry (runAll 3 (runAll 3 {} exPre).1 (.resp exResp false :: (exMid ++ [exLast]))).1 0 = false := by decide
+
+/-- the same for any reachable state in which `p` is refused (e.g. after the quiet period was entered earlier) -/
+theorem bp_quiet_while_refused (max : Nat) (pre mid : List In) (p : Int)
+    (hn : needsRetry (runAll max {} pre).1 p = true) (hm : ∀ i ∈ mid, ¬ reopens p i) :
+    adds p (runAll max (runAll max {} pre).1 mid).2 = [] ∧ needsRetry (runAll max (runAll max {} pre).1 mid).1 p = true := by
+  obtain ⟨_, b2, b3, _⟩ := run_quiet max _ mid p (run_inv max pre) hn hm
+  exact ⟨b2, b3⟩
+
+/-- **Bounces in order.**  When a response fails partition `p`, the tokens of `p` handed to retryMessage from then on -
+    until and including the next input after any run `mid` free of the partition's fin / syn (that input is the fin
+    chaser in the real pipeline) - are, in this order: the partition's part of the answered set in set order, its
+    part of the buffer in arrival order, the message held in waitForSpace, and then every token of `p` that arrives,
+    in arrival order. -/
+theorem bp_bounces_in_order (max : Nat) (pre : List In) (sent : List Tok) (r : Resp) (still : Bool) (mid : List In)
+    (last : In) (p : Int) (hs : (runAll max {} pre).1.sets = [sent]) (hf : failsFor max p sent r)
+    (hm : ∀ i ∈ mid, ¬ reopens p i) :
+    bounces p (runAll max (runAll max {} pre).1 (.resp r still :: (mid ++ [last]))).2 =
+      ids (onPart p sent) ++ ids (onPart p (runAll max {} pre).1.buffer) ++ ids (onPart p (runAll max {} pre).1.wait.toList) ++
+      ids (onPart p (arrivals max (step max (runAll max {} pre).1 (.resp r still)).1 (mid ++ [last]))) := by
+  have h0 := run_inv max pre
+  obtain ⟨a1, _, a3⟩ := resp_fails max _ sent r still p hs hf
+  have h1 := (step_fifo max _ (.resp r still) h0).2
+  obtain ⟨b1, _, b3, b4⟩ := run_quiet max _ mid p h1 a3 hm
+  obtain ⟨c1, _⟩ := step_quiet max _ last p b4 b3
+  simp only [runAll, bounces_append]
+  rw [show (step max (runAll max {} pre).1 (.resp r still)).2 = (resp max (runAll max {} pre).1 r still).2 from rfl, a1]
+  rw [runAll_append, arrivals_append]
+  simp only [bounces_append, b1, runAll, List.append_nil, c1, arrivals, onPart_append, ids, List.map_append]
+
+example : (runAll 3 {} exPre).1.sets = [exSent] ∧ failsFor 3 0 exSent exResp ∧ (∀ i ∈ exMid, ¬ reopens 0 i) ∧
+    bounces 0 (runAll 3 (runAll 3 {} exPre).1 (.resp exResp false :: (exMid ++ [exLast]))).2 = [1, 2, 3, 4, -2] ∧
+    (runAll 3 (runAll 3 {} exPre).1 (.resp exResp false :: (exMid ++ [exLast]))).2 =
+      [.succ 9 1, .requeue 1 0 1 false, .requeue 2 0 1 false, .drop 0, .requeue 3 0 1 false,
+       .refuse 4, .requeue 4 0 1 false, .add 8 1, .refuse (-2), .requeue (-2) 0 1 true] := by decide
+
+/-- data tokens of partition `p` that were bounced -/
+def bncD (p : Int) : Action → Option Int
+  | .requeue i q _ false => if q = p then some i else none
+  | .expire i q false => if q = p then some i else none
+  | _ => none
+
+def bouncedData (p : Int) (as : List Action) : List Int := as.filterMap (bncD p)
+
+theorem sublist_filterMap {f g : Action → Option Int} (hfg : ∀ a i, f a = some i → g a = some i) (l : List Action) :
+    List.Sublist (l.filterMap f) (l.filterMap g) := by
+  induction l with
+  | nil => simp
+  | cons a as ih =>
+    rw [List.filterMap_cons, List.filterMap_cons]
+    cases hf : f a with
+    | none =>
+      cases hg : g a with
+      | none => exact ih
+      | some j => exact List.Sublist.cons j ih
+    | some i =>
+      rw [hfg a i hf]
+      exact List.Sublist.cons_cons i ih
+
+/-- **Bounces preserve arrival order.**  For every input sequence, the bounced data tokens of a partition, in bounce
+    order, form a subsequence of the partition's data tokens in arrival order. -/
+theorem bp_bounce_order_preserving (max : Nat) (ins : List In) (p : Int) :
+    List.Sublist (bouncedData p (runAll max {} ins).2) (ids (dataArrivals max p {} ins)) := by
+  rw [← bp_partition_fifo max ins p]
+  refine List.Sublist.trans (sublist_filterMap ?_ _) (List.sublist_append_left _ _)
+  intro a i h
+  cases a <;> simp_all [bncD, outD]
+  all_goals (rename_i f; cases f <;> simp_all [bncD, outD])
+
+example : bouncedData 0 (runAll 3 {} (exPre ++ .resp exResp false :: (exMid ++ [exLast]))).2 = [1, 2, 3, 4] ∧
+    ids (dataArrivals 3 0 {} (exPre ++ .resp exResp false :: (exMid ++ [exLast]))) = [1, 2, 3, 4] := by decide
+
+/-- Retry.Max = 0: a retriable verdict fails the messages at once, abandons the broker and leaves the partition open -/
+example : (runAll 0 {} (exPre ++ [.resp exResp false, .recv ⟨4, 0, 0, .data⟩ false])).2 =
+    [.ackSyn 0, .add 1 0, .add 2 0, .add 9 1, .add 3 0, .succ 9 1, .abandon, .fail 1 0, .fail 2 0, .add 4 0] := by decide
 
 end Props.C02bp
